@@ -9,7 +9,7 @@ from __future__ import annotations
 import ast
 
 from mlmverif import cfg as cfgm
-from mlmverif.core import (AnalysisError, Ctx, FuncInfo, is_self_attr, kwarg,
+from mlmverif.core import (cnorm, AnalysisError, Ctx, FuncInfo, is_self_attr, kwarg,
                            unparse, walk_no_nested)
 
 EXPLANATION = (
@@ -279,7 +279,7 @@ def r3(ctx: Ctx):
       if inc[0] in reach:
         problem = problem or 'currsize is incremented for keys that already existed'
   if not problem:
-    ev = [n for n in g.nodes if n.kind == 'cond' and unparse(n.ast).replace(' ', '') == 'self.currsize>self.maxsize']
+    ev = [n for n in g.nodes if n.kind == 'cond' and unparse(n.ast) == cnorm('self.currsize > self.maxsize')]
     if not ev or len(dels) != 1 or len(dec) != 1:
       problem = 'eviction guard / delete / decrement are not each present once'
     else:
